@@ -26,7 +26,46 @@ def _expected(flat, lay, fixed):
     return out
 
 
+def build_include_case(rnd, tier, flags):
+    """Statement list split into nested include files (C13's splitter); the reader must deliver the same
+    stream, and get/put walks must leave it unchanged across include boundaries."""
+    from vf.props import c13
+    r = gen.R(rnd)
+    for _ in range(4):
+        case13, excl = c13.build(rnd, tier, flags)
+        if not case13["missing"] and case13.get("files"):
+            break
+    else:
+        return None
+    walk = []
+    depth = 0
+    for _ in range(r.n(5, 60)):
+        if depth and r.chance(45):
+            k = r.n(1, depth)
+            walk.append(["put", k])
+            depth -= k
+        else:
+            k = r.n(1, 5)
+            walk.append(["get", k])
+            depth += k
+    import re
+
+    def body(ln):
+        ln = re.sub(r"^\s*\d+\s+", "", ln)                       # statement label
+        ln = re.sub(r"^\s*[A-Za-z_]\w*\s*:(?!:)\s*", "", ln)     # construct name
+        return lexer.strip_blanks(ln)
+    texts = [body(ln) for ln in case13["full"].split("\n") if ln.strip()]
+    return {"include": {k: case13[k] for k in ("main", "files", "dir_order", "place", "decoys", "reader")},
+            "texts": texts, "walk": walk, "fixed": False, "keep_comments": False,
+            "meta": {"features": ["include"] + (["nested_include"] if case13["meta"].get("nested") else [])}}, excl
+
+
 def build(rnd, tier, flags):
+    r0 = gen.R(rnd)
+    if r0.chance(20):
+        c = build_include_case(rnd, tier, flags)
+        if c is not None:
+            return c
     units, flat, g = progs.make_program(rnd, flags, max_units=2)
     r = gen.R(rnd)
     fixed = r.chance(35)
@@ -73,7 +112,81 @@ def _describe(item):
             "cls": type(item).__name__}
 
 
+def _evaluate_include(case):
+    import os
+    import shutil
+    from vf.env import VERIF_DIR, FortranFileReader
+    feats = set(case["meta"]["features"])
+    inc = case["include"]
+    walk = case["walk"]
+    nontrivial = "nested_include" in feats or any(op == "put" and k >= 3 for op, k in walk)
+    labels = ["f:" + f for f in feats] + ["walk"]
+    wd = os.path.join(VERIF_DIR, ".work", "c12_%d" % os.getpid())
+    shutil.rmtree(wd, ignore_errors=True)
+    try:
+        dirs = [os.path.join(wd, "d%d" % k) for k in range(3)]
+        for d in dirs:
+            os.makedirs(d)
+        search = [dirs[k] for k in inc["dir_order"]]
+        for nm, text in inc["files"].items():
+            pos = inc["place"][nm]
+            with open(os.path.join(search[pos], nm), "w") as fh:
+                fh.write(text)
+            if inc.get("decoys"):
+                for later in search[pos + 1:]:
+                    with open(os.path.join(later, nm), "w") as fh:
+                        fh.write("@@@ decoy: must not be read @@@\n")
+        main_path = os.path.join(wd, "main.f90")
+        with open(main_path, "w") as fh:
+            fh.write(inc["main"])
+
+        def mk():
+            if inc["reader"] == "file":
+                return FortranFileReader(main_path, include_dirs=search)
+            return FortranStringReader(inc["main"], include_dirs=search)
+        items = list(mk())
+        got_texts = [_strip(it.line) for it in items if isinstance(it, RF.Line)]
+        if got_texts != case["texts"]:
+            i = next((k for k, (a, b) in enumerate(zip(got_texts, case["texts"])) if a != b), min(len(got_texts), len(case["texts"])))
+            return Result(False, "include-stream-differs", nontrivial, labels,
+                          {"index": i, "got": got_texts[i:i + 3], "expected": case["texts"][i:i + 3]})
+        model = [_strip(getattr(x, "line", "")) for x in items]
+        reader2 = mk()
+        seen, cursor, taken = {}, 0, []
+        for op, k in walk:
+            if op == "get":
+                for _ in range(k):
+                    it = reader2.get_item()
+                    if cursor >= len(model):
+                        if it is not None:
+                            return Result(False, "include-walk-item-after-end", nontrivial, labels, {})
+                        continue
+                    if it is None:
+                        return Result(False, "include-walk-premature-end", nontrivial, labels, {"cursor": cursor})
+                    if _strip(getattr(it, "line", "")) != model[cursor]:
+                        return Result(False, "include-walk-wrong-item", nontrivial, labels,
+                                      {"cursor": cursor, "expected": model[cursor], "got": _strip(getattr(it, "line", ""))})
+                    if cursor in seen and seen[cursor] is not it:
+                        return Result(False, "include-walk-reread-not-same-object", nontrivial, labels, {"cursor": cursor})
+                    seen[cursor] = it
+                    taken.append(it)
+                    cursor += 1
+            else:
+                for _ in range(min(k, len(taken))):
+                    reader2.put_item(taken.pop())
+                    cursor -= 1
+        rest = [_strip(getattr(x, "line", "")) for x in reader2]
+        if rest != model[cursor:]:
+            return Result(False, "include-walk-drain-differs", nontrivial, labels,
+                          {"cursor": cursor, "expected": model[cursor:cursor + 4], "got": rest[:4]})
+        return Result(True, None, nontrivial, labels)
+    finally:
+        shutil.rmtree(wd, ignore_errors=True)
+
+
 def evaluate(case):
+    if case.get("include"):
+        return _evaluate_include(case)
     feats = set(case.get("meta", {}).get("features", ()))
     exp = case["expected"]
     walk = case.get("walk") or []
